@@ -92,9 +92,12 @@ class WebSession(object):
             else:
                 error = False
 
-            self._current_session.event_dispatcher.notify(
-                self._current_session.SessionEvent.end_session, error=error)
-            self._current_session.recycle()
+            try:
+                self._current_session.event_dispatcher.notify(
+                    self._current_session.SessionEvent.end_session, error=error)
+            finally:
+                # Always give the connections back, even if a listener fails.
+                self._current_session.recycle()
 
     @asyncio.coroutine
     def start(self):
